@@ -53,6 +53,56 @@ class Linear:
             return l
         return None
 
+    _TESTS = {"std::option::Option::is_some": ("Some", "None"), "std::option::Option::is_none": ("None", "Some"),
+              "std::result::Result::is_ok": ("Ok", "Err"), "std::result::Result::is_err": ("Err", "Ok")}
+
+    def _variant_test(self, bid, t, holders):
+        """For a bool switch whose condition is `<holder>.is_some()` (or is_none/is_ok/is_err, possibly negated or copied):
+        (holder, {successor block -> variant the holder has on that edge}); None for any other switch."""
+        from .table import bool_origin
+        body = self.body
+        dl = op_local(t["discr"])
+        if t.get("dty") != "bool" or dl is None or t["discr"]["p"]["proj"]:
+            return None
+        o = bool_origin(self.du, dl)
+        if o is None:
+            return None
+        ct = body.blocks[o[0]]["term"]
+        names = self._TESTS.get(norm(ct.get("callee") or ""))
+        if not names or not ct["args"] or ct["args"][0]["k"] not in ("copy", "move") or ct["args"][0]["p"]["proj"]:
+            return None
+        # the receiver is `&holder`, taken in the block of the call
+        ds = self.du.defs.get(ct["args"][0]["p"]["l"], [])
+        if len(ds) != 1 or ds[0][2] != "assign" or ds[0][0] != o[0]:
+            return None
+        rv = ds[0][3]["rhs"]
+        if rv["k"] != "ref" or rv["p"]["proj"] or rv["p"]["l"] not in holders:
+            return None
+        # nothing but straight-line glue between the test and the branch on it
+        x, n = ct.get("target"), 0
+        while x is not None and x != bid and n < 8:
+            tt = body.blocks[x]["term"]
+            x = tt["target"] if tt["k"] == "goto" else None
+            n += 1
+        if x != bid:
+            return None
+        ones = [bb for v, bb in t["targets"] if int(v) == 1]
+        zeros = [bb for v, bb in t["targets"] if int(v) == 0]
+        edges = {}
+        for bb in term_succs(t):
+            if bb in ones and bb not in zeros and bb != t["otherwise"]:
+                val = True
+            elif bb in zeros and bb not in ones and bb != t["otherwise"]:
+                val = False
+            elif bb == t["otherwise"] and bool(zeros) != bool(ones) and bb not in ones and bb not in zeros:
+                val = bool(zeros)
+            else:
+                continue
+            if o[1]:
+                val = not val
+            edges[bb] = names[0] if val else names[1]
+        return (rv["p"]["l"], edges)
+
     def run(self, start=0, start_state=None):
         body = self.body
         st0 = start_state or (self.init, 0, frozenset(), ())
@@ -186,6 +236,16 @@ class Linear:
                         if int(val) == v:
                             tgt = bb
                     nxt_states.append((tgt if tgt is not None else t["otherwise"], holders, consumed, flags))
+                elif self._variant_test(bid, t, holders) is not None:
+                    # `if x.is_some()` / `is_none()` / `is_ok()` / `is_err()` on a holder: the same narrowing as a match on it
+                    h, edges = self._variant_test(bid, t, holders)
+                    for bb in term_succs(t):
+                        hs, cs = set(holders), consumed
+                        if edges.get(bb) in EMPTY_VARIANTS:
+                            hs.discard(h)
+                            if kinds.get(h) == "push-result:p" and edges[bb] == "Ok":
+                                cs = min(2, consumed + 1)
+                        nxt_states.append((bb, hs, cs, flags))
                 else:
                     for bb in term_succs(t):
                         nxt_states.append((bb, holders, consumed, flags))
